@@ -11,11 +11,14 @@ a timeout that is already over when the call is made is the choice "expire as so
 Schedules: (1) every maximal interleaving of the bounded configurations of `families` (stateless
 depth-first search: each schedule executed once on a fresh real object, sub-trees farmed out to a
 process pool), (2) random token strings beyond those bounds, including tokens that cannot move
-anything, (3) the witnesses of the two recorded findings.
+anything, (3) the witness of the recorded finding and the schedules of the repaired one.
 
-Recorded findings (KNOWN_FINDINGS.txt, signatures `KNOWN_SIGS`): inside their region the model follows
-the code as it is, the oracle reports them through ctx.known(), and the correspondence is not
+Recorded finding (KNOWN_FINDINGS.txt, signatures `KNOWN_SIGS`): inside its region the model follows
+the code as it is, the oracle reports it through ctx.known(), and the correspondence is not
 enforced for schedules that enter the region (so a later repair silences the line, nothing else).
+The former second finding (`disconnected-before-drain`: DisconnectedError while an arrived event is
+unreturned) is repaired in the library and modelled as repaired (pc r2b, C19.disconnected_after_drain):
+it is a plain violation of the oracle and of the correspondence again.
 A schedule on which a thread never parks nor finishes (busy loop) is cut after RUNAWAY tokens /
 by the watchdog of the asyncio world and reported; the first one stops the enumeration (ABORT).
 """
@@ -28,7 +31,7 @@ from .. import common as C
 
 LEVEL = 'proof'
 
-KNOWN_SIGS = ('recv-at-connection-wait-ignores-buffer', 'disconnected-before-drain')
+KNOWN_SIGS = ('recv-at-connection-wait-ignores-buffer',)
 
 
 def W():
@@ -229,8 +232,8 @@ def in_known_region(ans):
         return True
     for e in ans['log']:
         o = e['o']
-        if isinstance(o, dict) and o.get('exc') in ('TimeoutError', 'DisconnectedError') and \
-                e['pc'] in ('r1w', 'r2') and e['signalled'] > e['returned']:
+        if isinstance(o, dict) and o.get('exc') == 'TimeoutError' and e['pc'] == 'r1w' and \
+                e['signalled'] > e['returned']:
             return True
     return False
 
@@ -525,7 +528,7 @@ def run(ctx):
         'the set()" is outside the model)',
         'one producer thread (arrivals are appended in the order the handler is invoked)'])
     if ctx.thorough:
-        ok, out = C.leanchecker(['Sio.Props.C19', 'Sio.Lemmas.Simple', 'Sio.Model.Simple'])
+        ok, out = C.leanchecker(['Sio.Props.C19', 'Sio.Lemmas.SimpleAsync', 'Sio.Lemmas.Simple', 'Sio.Model.Simple'])
         ctx.coverage['leanchecker'] = 'ok' if ok else out
         if not ok:
             ctx.violation('proof', 'leanchecker rejects the compiled proofs: ' + out[-500:],
@@ -554,9 +557,14 @@ def run(ctx):
                 scheds.append(s)
             for i in range(0, len(scheds), 200):
                 tasks.append(('list', {'variant': v}, scheds[i:i + 200], 'sampled'))
-        # the recorded findings, always (so that a repair silences the line and nothing else changes)
+        # the recorded finding, always (so that a repair silences the line and nothing else changes), and the
+        # schedules of the repaired one (C19.lateArrival / lateArrivalAsync: the event arrives between the
+        # empty-buffer test and the end of the connection; it is returned, the next receive() raises) and of a
+        # connect handler that starts between the read of `connected` and the test of the buffer
         tasks.append(('list', {'variant': 'threads'}, [
-            'Kc Kc St C P P Kd C T St C C'.split(), 'Kc Kc Sr C P P Kd Kf Kf C C Sr C C'.split()], 'witness'))
+            'Kc Kc St C P P Kd C T St C C'.split(),
+            'Kc Kc Sr C P P Kd Kf Kf C C C C Sr C C C C'.split(),
+            'Kc Kc Kf Kf Sr C C C Kc C'.split()], 'witness'))
         tasks.append(('list', {'variant': 'asyncio'}, [
             'Kc Kd St C P T St C'.split(), 'Kc Kd Sr C P Kf C Sr C'.split()], 'witness'))
         ctx.rng.shuffle(tasks)
